@@ -28,7 +28,8 @@ Open Scope Z_scope.
 Inductive resp :=
 | ROk                 (* the block of the requested height *)
 | RRefuse             (* stream reset / closed without an answer *)
-| RStall              (* no answer: the 10 s context of the request expires *)
+| RStall              (* no answer at all.  The 10 s context of downloadBlockFromPeerOld only
+                         covers NewStream; ReadStream has no deadline: the goroutine waits forever *)
 | RMalformed          (* undecodable / empty / wrongly typed answer *)
 | RWrong (bh : Z).    (* a well-formed block of another height *)
 
@@ -163,6 +164,8 @@ Definition accepted (r : resp) : option (option Z) :=
   | _ => None
   end.
 
+Definition is_stall (r : resp) : bool := match r with RStall => true | _ => false end.
+
 (** * Events of phase one *)
 
 Inductive event :=
@@ -201,6 +204,7 @@ Definition step (c : config) (ts : list task) (s : state) (e : event) : option s
         end
   | Sleep _, PSleep => Some (set_g s g (mkG (g_h G) (g_vlen G) (g_retry G) PLoop))
   | Result _, PReq t =>
+      if is_stall (c_beh c (task_peer ts t) (g_h G)) then None (* the answer never comes *) else
       match accepted (c_beh c (task_peer ts t) (g_h G)) with
       | Some o =>
           let bh := match o with None => g_h G | Some b => b end in
